@@ -355,8 +355,10 @@ type VerifAuditOut struct {
 	// Events is everything sent to the collector channel, in order:
 	//   "obs <ts> <typ> <var> <val>" / "rep <ts> <auditor> <result> <output>" / "term"
 	Events []string
-	// Judged is the list of messages sent to reporter.judge, in order.
-	Judged []string
+	// Judged is the list of messages sent to reporter.judge, in order;
+	// JudgedPos[i] is the number of Events sent before Judged[i].
+	Judged    []string
+	JudgedPos []int
 	// Vars is the final value of every variable.
 	Vars map[string]interface{}
 	Err  string
@@ -367,8 +369,12 @@ type VerifAuditOut struct {
 	// WithCollector was requested; Csv the files it wrote.
 	CollectorErr string
 	Csv          map[string]string
-	Panicked     bool
-	Panic        string
+	// Tallies maps each audience member to (good count, bad count) as
+	// held by the collector at the end; NumAuditErrors = len(errors).
+	Tallies        map[string][2]int
+	NumAuditErrors int
+	Panicked       bool
+	Panic          string
 }
 
 // VerifAuditArgs configures VerifRunAudition.
@@ -384,14 +390,16 @@ type VerifAuditArgs struct {
 }
 
 type verifRecorder struct {
-	mu  sync.Mutex
-	out []string
-	jud []string
+	mu     sync.Mutex
+	out    []string
+	jud    []string
+	judPos []int
 }
 
-func (rec *verifRecorder) addJ(s string) {
+func (rec *verifRecorder) addJ(pos int, s string) {
 	rec.mu.Lock()
 	rec.jud = append(rec.jud, s)
+	rec.judPos = append(rec.judPos, pos)
 	rec.mu.Unlock()
 }
 
@@ -404,10 +412,12 @@ func (rec *verifRecorder) add(s string) {
 type verifJudgeReporter struct {
 	*verifReporter
 	rec *verifRecorder
+	// pos reports how many collector events were sent so far.
+	pos func() int
 }
 
 func (r verifJudgeReporter) judge(_ context.Context, _ urgency, _, f string, a ...interface{}) {
-	r.rec.addJ(fmt.Sprintf(f, a...))
+	r.rec.addJ(r.pos(), fmt.Sprintf(f, a...))
 }
 
 func verifFmtCollectorEvent(cev collectorEvent) string {
@@ -445,13 +455,16 @@ func VerifRunAudition(a VerifAuditArgs) (res VerifAuditOut) {
 	cfg.earlyExit = a.EarlyExit
 	rec := &verifRecorder{}
 	base := &verifReporter{ep: time.Now().Add(-time.Duration(a.EpochOffset * float64(time.Second)))}
-	rep := verifJudgeReporter{base, rec}
+	// Nobody receives from collCh while the audit loop runs: its length
+	// is the number of events sent so far, which orders the judge
+	// messages relative to the collector events.
+	collCh := make(chan collectorEvent, 1<<17)
+	rep := verifJudgeReporter{base, rec, func() int { return len(collCh) }}
 	res.EpochOffset = a.EpochOffset
 	stopper := stop.NewStopper()
 	defer stopper.Stop(ctx)
 
 	eventCh := make(chan auditableEvent, len(a.Events)+1)
-	collCh := make(chan collectorEvent, 16)
 	auRes := &auditionResults{}
 	au := audition{
 		r:       rep,
@@ -480,19 +493,40 @@ func VerifRunAudition(a VerifAuditArgs) (res VerifAuditOut) {
 	}
 	eventCh <- terminate{}
 
-	var colCh chan collectorEvent
-	var colDone chan error
-	var scratch string
+	auDone := make(chan error, 1)
+	go func() {
+		defer func() {
+			if r := recover(); r != nil {
+				auDone <- fmt.Errorf("panic: %v", r)
+			}
+		}()
+		auDone <- au.audit(ctx)
+	}()
+	select {
+	case err := <-auDone:
+		if err != nil {
+			res.Err = fmt.Sprintf("%v", err)
+		}
+	case <-time.After(20 * time.Second):
+		res.Err = "verif: audit loop did not finish within 20s"
+		return res
+	}
+	close(collCh)
+	var all []collectorEvent
+	for cev := range collCh {
+		all = append(all, cev)
+		rec.out = append(rec.out, verifFmtCollectorEvent(cev))
+	}
+
 	if a.WithCollector {
-		scratch, err = ioutil.TempDir("", "verif-col")
+		scratch, err := ioutil.TempDir("", "verif-col")
 		if err != nil {
 			res.Err = err.Error()
 			return res
 		}
 		defer os.RemoveAll(scratch)
 		cfg.dataDir = scratch
-		colCh = make(chan collectorEvent, 16)
-		colDone = make(chan error, 1)
+		colCh := make(chan collectorEvent, len(all)+2)
 		col := collector{
 			r:       rep,
 			cfg:     cfg,
@@ -501,45 +535,17 @@ func VerifRunAudition(a VerifAuditArgs) (res VerifAuditOut) {
 			logger:  log.NewSecondaryLogger(ctx, nil, "collector", true, false),
 			eventCh: colCh,
 		}
-		go func() { colDone <- col.collect(ctx) }()
-	}
-
-	auDone := make(chan error, 1)
-	go func() {
-		defer func() {
-			if r := recover(); r != nil {
-				auDone <- fmt.Errorf("panic: %v", r)
-				close(collCh)
-			}
-		}()
-		err := au.audit(ctx)
-		close(collCh)
-		auDone <- err
-	}()
-	colAlive := a.WithCollector
-	for cev := range collCh {
-		rec.add(verifFmtCollectorEvent(cev))
-		if colAlive {
-			select {
-			case colCh <- cev:
-				if _, ok := cev.(terminate); ok {
-					colAlive = false
-				}
-			case err := <-colDone:
-				// Collector exited early (e.g. -S).
-				colAlive = false
-				colDone <- err
+		sawTerm := false
+		for _, cev := range all {
+			colCh <- cev
+			if _, ok := cev.(terminate); ok {
+				sawTerm = true
 			}
 		}
-	}
-	if err := <-auDone; err != nil {
-		res.Err = fmt.Sprintf("%v", err)
-	}
-	if a.WithCollector {
-		if colAlive {
+		if !sawTerm {
 			colCh <- terminate{}
 		}
-		if err := <-colDone; err != nil {
+		if err := col.collect(ctx); err != nil {
 			res.CollectorErr = fmt.Sprintf("%v", err)
 		}
 		res.Csv = make(map[string]string)
@@ -548,9 +554,15 @@ func VerifRunAudition(a VerifAuditArgs) (res VerifAuditOut) {
 			b, _ := ioutil.ReadFile(f)
 			res.Csv[filepath.Base(f)] = string(b)
 		}
+		res.Tallies = map[string][2]int{}
+		for name := range cfg.audience {
+			res.Tallies[name] = [2]int{col.st.goodCounts[name], col.st.badCounts[name]}
+		}
+		res.NumAuditErrors = len(col.st.errors)
 	}
 	res.Events = rec.out
 	res.Judged = rec.jud
+	res.JudgedPos = rec.judPos
 	res.Vars = make(map[string]interface{})
 	for k, v := range au.st.curVals {
 		res.Vars[k] = v
